@@ -217,6 +217,13 @@ func ruleSendDump(c *Check, rule, ruleTime, ruleOrder string) {
 			}
 		}
 		if elem == "" {
+			// the private names were filtered out before the loop
+			if e2, ok := filteredAppElem(c, p); ok {
+				elem = e2
+				nSkip++ // the filter is the skip
+			}
+		}
+		if elem == "" {
 			bad++
 			c.Bad(rule, fnSendTxn+"/prefix-test", "an iteration over the DBI names does not test the private prefix \"_sync\"", c.pathPos(p), describe(c, p))
 			continue
